@@ -183,7 +183,7 @@ def run(ctx, prop):
     for name, line in viols:
         by_key.setdefault(key_for(name, line), (name, line))
     known = {k["key"] for k in vlib.load_known().get("findings", []) if k["property"] == prop}
-    for key, (name, line) in sorted(by_key.items()):
+    for key, (name, line) in sorted(vlib.limit_new(by_key, prop).items()):
         src = line["src"]
         if "#" in src and src.split("#")[0].endswith(".ndjson"):
             path, idx = src.rsplit("#", 1)
